@@ -324,6 +324,40 @@ def init_array_case(d=2):
   return fn
 
 
+def int_array_option_case():
+  """NOT solver-decided (dtype handling is C-level): an integer-dtype SPD array given as prior / init / basis is used like the same
+  numbers in float64 (the iterative solvers update the matrix in place, which an integer buffer cannot hold)"""
+  def fn(ctx):
+    import metric_learn as ml
+    rs = np.random.RandomState(4)
+    X = rs.randn(40, 3)
+    y = np.repeat([0, 1], 20)
+    X[y == 1] += 2
+
+    def tup(t, n=30):
+      return X[np.array([rs.choice(40, t, replace=False) for _ in range(n)])]
+    P, yp, Q = tup(2), np.array([1, -1] * 15), tup(4)
+    for Ai in (np.eye(3, dtype=int) * 2, np.array([[2, 1, 0], [1, 2, 0], [0, 0, 1]], dtype=np.int32), np.eye(3, dtype=np.uint8)):
+      Af = Ai.astype(float)
+      runs = {'ITML_prior': lambda A: ml.ITML(prior=A, max_iter=5).fit(P, yp), 'MMC_init': lambda A: ml.MMC(init=A, max_iter=5).fit(P, yp),
+              'LSML_prior': lambda A: ml.LSML(prior=A, max_iter=5).fit(Q), 'SDML_prior': lambda A: ml.SDML(prior=A, balance_param=1e-3).fit(P, yp),
+              'NCA_init': lambda A: ml.NCA(init=A, max_iter=3).fit(X, y), 'LMNN_init': lambda A: ml.LMNN(init=A, max_iter=5).fit(X, y),
+              'MLKR_init': lambda A: ml.MLKR(init=A, max_iter=3).fit(X, y.astype(float))}
+      for nm, f in runs.items():
+        with warnings.catch_warnings():
+          warnings.simplefilter('ignore')
+          ref = f(Af).get_mahalanobis_matrix()
+          keep = Ai.copy()
+          try:
+            got = f(Ai).get_mahalanobis_matrix()
+          except Exception as e:   # noqa
+            ctx.fail('integer_array_%s_accepted' % nm, detail='%s dtype %s: %r' % (nm, Ai.dtype, e))
+            continue
+        ctx.require('integer_array_%s_same_model' % nm, ctx.cond(np.allclose(got, ref, rtol=1e-6, atol=1e-9)))
+        ctx.require('integer_array_%s_untouched' % nm, ctx.cond(np.array_equal(keep, Ai) and Ai.dtype == keep.dtype))
+  return fn
+
+
 def init_simple_case():
   def fn(ctx):
     U = _u()
@@ -516,6 +550,9 @@ def cases(tier, seed):
   out.append(case('init_cov_triplets_d1', init_cov_case(3, 1, 1), FUNCS, '1 triplet of arbitrary points in R^1', cost=5, max_paths=100000))
   out.append(case('init_cov_points_d2', init_cov_case(0, 2, 3), FUNCS, '3 arbitrary points in R^2 (no de-duplication for plain points)', cost=5))
   out.append(case('init_array_d2', init_array_case(2), FUNCS, 'arbitrary real 2x2 array as prior/init, strict_pd in {False, True}', cost=20))
+  out.append(case('int_array_options', int_array_option_case(), FUNCS,
+                  'integer-dtype SPD arrays (int64, int32, uint8) as prior / init of ITML, MMC, LSML, SDML, NCA, LMNN, MLKR on one data set (concrete, sampled; not solver-decided)',
+                  concrete_only=True, validate=1, cost=5))
   out.append(case('init_simple', init_simple_case(), FUNCS, 'identity / random / unknown options, d in 1..3, tuple sizes 0..4', cost=3))
   out.append(case('components_init', components_init_case(), FUNCS, 'd,k in 1..3, array init of arbitrary shape 1..4 x 1..4, identity, random', cost=10))
   out.append(case('crosshair_auto_rule_and_n_components', crosshair_case(), FUNCS,
